@@ -283,6 +283,85 @@ func c08(c *Ctx) {
 			}
 		}
 	}
+	// ---- (5b) the hints name DIFFERENT encryption types: ETYPE-INFO says A, ETYPE-INFO2 says B, the caller asked for
+	// A or B.  RFC 4120 5.2.7.5: the most specific hint present decides etype, salt and parameters, in every order.
+	// The expected key is computed here from the winning hint alone.
+	type etPair struct{ a, b int32 }
+	for pi, pr := range []etPair{{23, 17}, {17, 23}, {16, 18}, {18, 16}, {23, 19}, {17, 18}, {18, 17}, {16, 23}, {23, 16}} {
+		for _, req := range []int32{pr.a, pr.b} {
+			saltPW := fmt.Sprintf("saltPW%d", c.R.Intn(1000))
+			saltI1 := fmt.Sprintf("saltINFO%d", c.R.Intn(1000))
+			saltI2 := fmt.Sprintf("saltINFO2-%d", c.R.Intn(1000))
+			var params []byte
+			if pr.b == 17 || pr.b == 18 || pr.b == 19 {
+				params = be32(uint32(1 + c.R.Intn(6)))
+			}
+			i1, _ := asn1.Marshal(types.ETypeInfo{{EType: pr.a, Salt: []byte(saltI1)}})
+			i2, _ := asn1.Marshal(types.ETypeInfo2{{EType: pr.b, Salt: saltI2, S2KParams: params}})
+			hints := []types.PAData{{PADataType: 3, PADataValue: []byte(saltPW)}, {PADataType: 11, PADataValue: i1}, {PADataType: 19, PADataValue: i2}}
+			jh := []jv.V{jv.L(jv.I(3), jv.S(saltPW)), jv.L(jv.I(11), jv.L(jv.L(jv.I(int64(pr.a)), jv.S(saltI1)))), jv.L(jv.I(19), jv.L(jv.L(jv.I(int64(pr.b)), jv.S(saltI2), func() jv.V {
+				if params == nil {
+					return jv.L()
+				}
+				return jv.L(jv.B(params))
+			}())))}
+			pw := c08Passwords[1+c.R.Intn(5)]
+			for _, mask := range []int{4, 5, 6, 7, 2, 3} {
+				// the hint that decides, and what it says
+				wet, wsalt := pr.b, saltI2
+				if mask&4 == 0 {
+					wet, wsalt = pr.a, saltI1
+					if wet == 17 || wet == 18 || wet == 19 {
+						continue // ETYPE-INFO alone with an AES type: default iteration count, too slow for the extracted model
+					}
+				}
+				if (wet == 17 || wet == 18 || wet == 19) && wet != req {
+					// the default parameters of the requested type would be combined with another type: not a case the
+					// precedence rule speaks about unless ETYPE-INFO2 carries parameters - it does here, so keep it
+					if params == nil {
+						continue
+					}
+				}
+				wetype, _ := crypto.GetEtype(wet)
+				wparams := wetype.GetDefaultStringToKeyParams()
+				if mask&4 != 0 && params != nil {
+					wparams = hex.EncodeToString(params)
+				}
+				var want []byte
+				guard(func() { want, _ = wetype.StringToKey(pw, wsalt, wparams) })
+				var idx []int
+				for i := 0; i < 3; i++ {
+					if mask&(1<<uint(i)) != 0 {
+						idx = append(idx, i)
+					}
+				}
+				for _, perm := range permutations(len(idx)) {
+					var pas types.PADataSequence
+					var jp []jv.V
+					for _, k := range perm {
+						pas = append(pas, hints[idx[k]])
+						jp = append(jp, jh[idx[k]])
+					}
+					var key types.EncryptionKey
+					var err error
+					p, _ := guard(func() { key, _, err = crypto.GetKeyFromPassword(pw, cname, realm, req, pas) })
+					in := jv.L(jv.S(pw), jv.Strs(cname.NameString), jv.S(realm), jv.I(int64(req)), jv.L(jp...))
+					switch {
+					case p:
+						c.Case("key_from_password", in, jv.Panic())
+					case err != nil:
+						c.Case("key_from_password", in, jv.Err())
+					default:
+						c.Case("key_from_password", in, jv.Ok(jv.B(key.KeyValue), jv.I(int64(key.KeyType))))
+					}
+					c.Count("padata-mixed-etypes")
+					c.Check(!p && err == nil && bytes.Equal(key.KeyValue, want), "etype, salt and parameters come from the most specific hint present, in every order (RFC 4120 5.2.7.5)", "padata-mixed-etype-order",
+						fmt.Sprintf("INFO etype %d, INFO2 etype %d, requested %d, subset %d order %v: key %x want %x (etype %d) err %v", pr.a, pr.b, req, mask, perm, key.KeyValue, want, wet, err),
+						map[string]interface{}{"pair": pi, "req": req, "subset": mask, "perm": perm})
+				}
+			}
+		}
+	}
 	// empty ETYPE-INFO / ETYPE-INFO2 sequences
 	for _, t := range []int32{11, 19} {
 		pas := types.PADataSequence{{PADataType: t, PADataValue: []byte{0x30, 0x00}}}
